@@ -5,8 +5,8 @@
    over Q with the edge-correction measure [arc] as a parameter),
    Model/StaticGeom.v (the edge-correction formulas over R). *)
 From Coq Require Import ZArith QArith List Permutation Reals.
-From TP Require Import Model.StaticCluster Model.StaticPairCorr Model.StaticGeom.
-From TP Require Import Proofs.StaticCluster Proofs.StaticPairCorr Proofs.StaticGeom.
+From TP Require Import Model.StaticCluster Model.StaticPairCorr Model.StaticPairCorrSel Model.StaticGeom.
+From TP Require Import Proofs.StaticCluster Proofs.StaticPairCorr Proofs.StaticPairCorrSel Proofs.StaticGeom.
 Import ListNotations.
 
 (* ================================================================== *)
@@ -162,6 +162,64 @@ Example C19_gr_example :
   pair_correlation (fun _ _ => Some 1) 2 None [[0; 0]; [1; 0]; [2; 4]] None 3 1
   = pair_correlation (fun _ _ => Some 1) 2 (Some [(0, 2); (0, 4)]) [[0; 0]; [1; 0]; [2; 4]] None 3 1.
 Proof. split; vm_compute; reflexivity. Qed.
+
+(* ---- reference particles (p_indices; fraction < 1 draws them at random) ----
+   Only pairs whose FIRST member is a reference particle are counted; the edge correction is
+   evaluated at that reference particle (its own wall distances), and the histogram is divided
+   by density * (number of reference particles) * dr. *)
+Theorem C19_gr_sel_is_normalised_corrected_histogram :
+  forall (arc : Q -> list Q -> option Q) (b : box) (refs feat : list qpt) (ndens : option Q) (cutoff dr : Q) (k : nat),
+  0 < dr -> 0 <= cutoff -> (k < nbins cutoff dr)%nat ->
+  let n := length feat in
+  let rho := match ndens with Some r => r | None => ndens_default n b end in
+  nth_error (gr_box_ref arc b refs feat ndens cutoff dr) k
+  = Some (finish (rho * inject_Z (Z.of_nat (length refs)) * dr)
+      (fold_left addw
+         (map (fun pq => option_map Qinv (arc (Qred (qd2 (fst pq) (snd pq))) (walls (fst pq) b)))
+              (filter (fun pq => in_range (cutoff * cutoff) (fst pq) (snd pq)
+                                 && (Qle_bool (edge2 dr k) (qd2 (fst pq) (snd pq))
+                                     && Qltb (qd2 (fst pq) (snd pq)) (edge2 dr (S k))))
+                      (list_prod refs feat)))
+         (0%nat, 0))).
+Proof. exact gr_box_ref_spec. Qed.
+Print Assumptions C19_gr_sel_is_normalised_corrected_histogram.
+
+(* every particle a reference particle (p_indices = 0..n-1, the default): the plain g(r) *)
+Theorem C19_gr_sel_all :
+  forall (arc : Q -> list Q -> option Q) (dim : nat) (boundary : option box) (pts : list qpt) (ndens : option Q) (cutoff dr : Q),
+  pair_correlation_sel arc dim boundary pts
+      (seq 0 (length (match boundary with None => pts | Some b => filter (inside b) pts end))) ndens cutoff dr
+  = pair_correlation arc dim boundary pts ndens cutoff dr.
+Proof. exact pair_correlation_sel_all. Qed.
+Print Assumptions C19_gr_sel_all.
+
+(* unchanged when the particles are listed in another order and the reference particles (the same
+   particles, wherever they now stand) are listed in another order *)
+Theorem C19_gr_sel_permutation :
+  forall (arc : Q -> list Q -> option Q) (b : box) (refs refs' feat feat' : list qpt) (ndens : option Q) (cutoff dr : Q),
+  Permutation refs refs' -> Permutation feat feat' ->
+  gr_box_ref arc b refs' feat' ndens cutoff dr = gr_box_ref arc b refs feat ndens cutoff dr.
+Proof. exact gr_box_ref_permutation. Qed.
+Print Assumptions C19_gr_sel_permutation.
+
+Theorem C19_gr_sel_translation :
+  forall (arc : Q -> list Q -> option Q) (dim : nat) (t : list Q) (b : box) (pts : list qpt) (idx : list nat)
+         (ndens : option Q) (cutoff dr : Q),
+  (forall i, In i idx -> (i < length (filter (inside b) pts))%nat) ->
+  pair_correlation_sel arc dim (Some (shift_box t b)) (map (shift t) pts) idx ndens cutoff dr
+  = pair_correlation_sel arc dim (Some b) pts idx ndens cutoff dr.
+Proof. exact pair_correlation_sel_translation. Qed.
+Print Assumptions C19_gr_sel_translation.
+
+(* non-vacuity: the three particles of the example above with the LAST one as the only reference particle,
+   and an arc that depends on the reference particle's distance to the left wall (1 + that distance):
+   bin [1,2): pair (2,0)->(1,0), bin [2,3): pair (2,0)->(0,0); weights 1/3 each; density 1/8, one reference
+   particle: g = (1/3) / (1/8) = 8/3.  Evaluated at the wrong particle (index 0, wall distance 0) the weights
+   would be 1 and the bins 8. *)
+Example C19_gr_sel_example :
+  pair_correlation_sel (fun _ h => Some (1 + nth 0 h 0)) 2 (Some [(0, 4); (0, 4)]) [[0; 0]; [1; 0]; [2; 0]] [2%nat] None 3 1
+  = [Some 0; Some (8 # 3); Some (8 # 3)].
+Proof. vm_compute; reflexivity. Qed.
 
 (* ================================================================== *)
 (* edge-correction geometry (stdlib reals; classical axioms of R)      *)
